@@ -14,23 +14,33 @@ demodir=$(head -5 "$d/demo_test.go" | grep -oE 'pkg/[A-Za-z0-9_/.-]+' | head -1)
 demodir=${demodir%/}
 case "$demodir" in *.go) demodir=$(dirname "$demodir");; esac
 [ -d "$wt/$demodir" ] || { echo "demo dir '$demodir' not found"; demodir=""; }
-pinned() { go test -vet=off -count=1 -timeout 25m ./... 2>&1 | grep "^ok" | awk '{print $2}' | sort; }
+# the pinned suite = the 30 packages of tools/pinned_pkgs.txt (everything else does not build without the purego tag, on
+# the unchanged tree too); only those that depend on a package the patch touches can change their verdict
+touched=$(grep -E '^\+\+\+ b/' "$d/patch.diff" | sed 's#^+++ b/##' | xargs -n1 dirname | sort -u | sed 's#^#github.com/bronlabs/bron-crypto/#')
+affected=""
+for p in $(cat /verif/tools/pinned_pkgs.txt); do
+  deps=$(go list -deps "$p" 2>/dev/null)
+  for t in $touched; do
+    if echo "$deps" | grep -qx "$t"; then affected="$affected $p"; break; fi
+  done
+done
+pinned() { [ -z "$affected" ] && return; go test -vet=off -count=1 -timeout 25m $affected 2>&1 | grep "^ok" | awk '{print $2}' | sort; }
 rundemo() { ( cd "$wt/$demodir" && cp "$d/demo_test.go" ./zz_seed_demo_test.go && timeout 1200 go test -tags purego -count=1 -run 'Seed|Demo|seed|demo' . 2>&1 | tail -5; rm -f ./zz_seed_demo_test.go ); }
-base_ok=/root/scratch/pinned_base_ok.txt
-[ -s $base_ok ] || pinned > $base_ok
+base_ok=/tmp/pinned_base_$$.txt
+pinned > $base_ok
 demo_without=$(rundemo)
 git apply "$d/patch.diff" || { echo '{"applies": false}' > "$d/confirm.json"; git -C /repo worktree remove --force "$wt"; exit 1; }
 build=$(go build -tags purego ./pkg/... 2>&1 | tail -3)
 pinned > /tmp/pinned_with_$$.txt
 same=$(diff -q $base_ok /tmp/pinned_with_$$.txt >/dev/null && echo true || echo false)
 demo_with=$(rundemo)
-python3 - "$d" "$same" "$build" "$demo_without" "$demo_with" <<'PY'
+python3 - "$d" "$same" "$build" "$demo_without" "$demo_with" "$affected" <<'PY'
 import json,sys
 d,same,build,wo,wi=sys.argv[1:6]
-json.dump({"applies":True,"builds":build.strip()=="" ,"build_output":build,"pinned_suite_same_passing_packages":same=="true",
+json.dump({"applies":True,"builds":build.strip()=="" ,"build_output":build,"pinned_suite_same_passing_packages":same=="true","pinned_packages_affected":sys.argv[6].split(),
  "demo_passes_without_patch": ("ok" in wo and "FAIL" not in wo),"demo_fails_with_patch":("FAIL" in wi),
  "demo_output_without":wo[-600:],"demo_output_with":wi[-600:]},open(d+"/confirm.json","w"),indent=1)
 PY
-rm -f /tmp/pinned_with_$$.txt
+rm -f /tmp/pinned_with_$$.txt $base_ok
 cd /; git -C /repo worktree remove --force "$wt" >/dev/null 2>&1
 cat "$d/confirm.json" | head -8
